@@ -481,7 +481,7 @@ ENVIRONMENTS = {
     "python -OO, TZ=XXX-9": {"PYTHONOPTIMIZE": "2", "TZ": "XXX-9"},
     "python -O, wall clock at the turn of a year": {"PYTHONOPTIMIZE": "1", "VERIF_MASQUERADE": "clock:newyear", "@skip_labels": "real-clock"},
     "warnings raised as errors": {"VERIF_WARNINGS_AS_ERRORS": "1"},
-    "TZ=XXX+11, LC_ALL=tr_TR.UTF-8, logging at DEBUG level (root logger)": {"TZ": "XXX+11", "LC_ALL": "tr_TR.UTF-8", "LANG": "tr_TR.UTF-8", "VERIF_LOGGING": "root"},
+    "TZ with daylight-saving time in force all year (XXX5YYY,J1/0,J365/25), LC_ALL=tr_TR.UTF-8, logging at DEBUG level (root logger)": {"TZ": "XXX5YYY,J1/0,J365/25", "LC_ALL": "tr_TR.UTF-8", "LANG": "tr_TR.UTF-8", "VERIF_LOGGING": "root"},
     "private CA bundle (SSL_CERT_FILE / SSL_CERT_DIR), logging at DEBUG level ('webauthn' logger hierarchy)": {"SSL_CERT_FILE": "@forged_root_bundle", "SSL_CERT_DIR": "@forged_root_dir", "VERIF_LOGGING": "webauthn"},
     "python -bb (bytes/str comparisons are errors)": {"@args": "-bb"},
     # what the interpreter SAYS it is, to code that asks (harness/envprobe.py masquerade): another implementation, platform, language version, word size, date
